@@ -834,7 +834,48 @@ def check_counted_getters(ix, rep, rule='R-FWD'):
         getters = [f for c in [spec] for nm, f in c.methods.items() if nm == y and not any(ast.unparse(d).endswith('.setter') for d in f.node.decorator_list)]
         for g in getters:
             rep.analysed(g)
-            cfg = flow.CFG(unroll_attr_loops(g.node))
+            gnode = unroll_attr_loops(g.node)
+            # locals bound once to `getattr(self, '<interpreter attribute>', None)` stand for the attribute
+            import copy as _copy
+            stores_ = {}
+            for x_ in ast.walk(gnode):
+                if isinstance(x_, ast.Name) and isinstance(x_.ctx, ast.Store):
+                    stores_[x_.id] = stores_.get(x_.id, 0) + 1
+            probe = {}
+            for x_ in ast.walk(gnode):
+                if isinstance(x_, ast.Assign) and len(x_.targets) == 1 and isinstance(x_.targets[0], ast.Name) and stores_.get(x_.targets[0].id) == 1 \
+                        and isinstance(x_.value, ast.Call) and isinstance(x_.value.func, ast.Name) and x_.value.func.id == 'getattr' and len(x_.value.args) == 3 \
+                        and isinstance(x_.value.args[0], ast.Name) and x_.value.args[0].id == 'self' and isinstance(x_.value.args[1], ast.Constant) and x_.value.args[1].value in attrs:
+                    probe[x_.targets[0].id] = ast.Attribute(value=ast.Name(id='self', ctx=ast.Load()), attr=x_.value.args[1].value, ctx=ast.Load())
+            if probe:
+                class _P(ast.NodeTransformer):
+                    def visit_Name(self, n_):
+                        if isinstance(n_.ctx, ast.Load) and n_.id in probe:
+                            return ast.copy_location(_copy.deepcopy(probe[n_.id]), n_)
+                        return n_
+                gnode = _P().visit(_copy.deepcopy(gnode))
+                ast.fix_missing_locations(gnode)
+
+            def holds(t):
+                """truth of a test on an object that holds every interpreter, all of them discrete-time: True / False / None (not about that)"""
+                if isinstance(t, ast.UnaryOp) and isinstance(t.op, ast.Not):
+                    v = holds(t.operand)
+                    return None if v is None else not v
+                if isinstance(t, ast.BoolOp):
+                    vs = [holds(v) for v in t.values]
+                    if isinstance(t.op, ast.And):
+                        return False if any(v is False for v in vs) else (True if all(v is True for v in vs) else None)
+                    return True if any(v is True for v in vs) else (False if all(v is False for v in vs) else None)
+                txt = ast.unparse(t)
+                if not any(a_ in txt for a_ in attrs):
+                    return None
+                if isinstance(t, ast.Call) and isinstance(t.func, ast.Name) and t.func.id in ('hasattr', 'isinstance'):
+                    return True
+                if isinstance(t, ast.Compare) and len(t.ops) == 1 and isinstance(t.comparators[0], ast.Constant) and t.comparators[0].value is None \
+                        and isinstance(t.left, ast.Attribute) and t.left.attr in attrs:
+                    return isinstance(t.ops[0], (ast.IsNot, ast.NotEq))
+                return None
+            cfg = flow.CFG(gnode)
             seen = set()
             stack = [cfg.entry]
             while stack:
@@ -844,11 +885,14 @@ def check_counted_getters(ix, rep, rule='R-FWD'):
                 seen.add(k)
                 st = cfg.stmt[k]
                 if isinstance(st, ast.If) and cfg.kind[k] == 'if':
-                    t = ast.unparse(st.test)
-                    about = [a for a in attrs if a in t]
-                    positive = about and not any(isinstance(x, ast.Not) for x in ast.walk(st.test)) and ('hasattr' in t or 'isinstance' in t or 'is not None' in t)
-                    if positive:
+                    hv = holds(st.test)
+                    if hv is True:
                         stack.append(cfg.node(st.body[0]))
+                        continue
+                    if hv is False:
+                        # the arm is not taken: whatever follows the test when it fails
+                        inside = {id(x) for b_ in st.body for x in ast.walk(b_)}
+                        stack.extend(s_ for s_ in cfg.succ[k] if cfg.stmt[s_] is None or id(cfg.stmt[s_]) not in inside)
                         continue
                 stack.extend(cfg.succ[k])
             for a in attrs:
